@@ -84,7 +84,9 @@ def run_arb_case(case, judged):
         return t
 
     decoy(rng, twin)
-    arb = wishbone.Arbiter(addr_width=aw, data_width=dw, granularity=gran, features=spell_features(rng, afeat))
+    from vmon.simkit import omit
+    arb = wishbone.Arbiter(**omit(rng, "wishbone", addr_width=aw, data_width=dw, granularity=gran,
+                                  features=spell_features(rng, afeat)))
     intrs = []
     rejected = []
     slots = case.get("slots") or list(range(n))
